@@ -16,9 +16,21 @@ def integral(x):
     return bool(x.size and x.dtype.kind == "f" and np.all(np.isfinite(x)) and np.all(x == np.round(x)) and np.abs(x).max() < 2 ** 31)
 
 
-def variants(x, lists=True, float32=False):
+def variants(x, lists=True, float32=False, objects=False):
     x = np.asarray(x)
     out = []
+    if objects:            # the library's own array classes holding exactly these values, handed over where an array is expected
+        import ahrs
+        from ahrs.common.dcm import DCM
+        try:
+            if x.shape == (4,) and np.any(x):
+                out.append(("Quaternion object", ahrs.Quaternion(x.copy(), versor=False)))
+            elif x.ndim == 2 and x.shape[1] == 4 and np.all(np.any(x != 0, axis=1)):
+                out.append(("QuaternionArray object", ahrs.QuaternionArray(x.copy(), versors=False)))
+            elif x.shape == (3, 3) and abs(np.linalg.det(x) - 1) < 1e-9 and np.abs(x @ x.T - np.eye(3)).max() < 1e-9:
+                out.append(("DCM object", DCM(x.copy())))
+        except Exception:      # noqa: BLE001 - the class refused these values: no such form
+            pass
     if lists:
         out.append(("list", x.tolist()))
         if x.ndim == 1:
@@ -42,7 +54,9 @@ def flat(r):
 
 
 def invariant(ctx, route, fn, args, which=None, tol=1e-12, lists=True, clause="the same values in another argument form (list / tuple / integer) give the same result",
-              region=None, skip=()):
+              region=None, skip=(), objects=False, attitude=False):
+    """attitude=True: results are attitudes - a quaternion and its negative, angles differing by 2 pi are the same answer (a whole-number input has no
+    negative zero, so an atan2-based estimator may land on the other side of its +-pi branch cut)."""
     """fn(*args) with float64 arrays is the base; every exact variant of every array argument in `which` is tried."""
     base = call(fn, *[a.copy() if isinstance(a, np.ndarray) else a for a in args])
     if not base.ok:
@@ -56,12 +70,16 @@ def invariant(ctx, route, fn, args, which=None, tol=1e-12, lists=True, clause="t
     for i, a in enumerate(args):
         if not isinstance(a, np.ndarray) or (which is not None and i not in which):
             continue
-        for lab, v in variants(a, lists=lists):
+        for lab, v in variants(a, lists=lists, objects=objects):
             if lab in skip:
                 continue
             alt = list(a2.copy() if isinstance(a2, np.ndarray) else a2 for a2 in args)
             alt[i] = v
+            snap = np.array(np.asarray(v), float).tobytes() if lab.endswith("object") else None
             out = call(fn, *alt)
+            if snap is not None and out.ok:
+                ctx.ok("an ahrs object handed over as an argument is left unchanged", np.array(np.asarray(v), float).tobytes() == snap and (not hasattr(v, "A") or np.array(v.A, float).tobytes() == snap),
+                       {"form": lab, "argument": i}, route=route, region=region)
             if not out.ok:
                 ctx.note("form %s refused/crashed with %s (recorded, not judged)" % (lab, out.exc_name))
                 continue
@@ -77,6 +95,11 @@ def invariant(ctx, route, fn, args, which=None, tol=1e-12, lists=True, clause="t
                 continue
             both_nan = np.isnan(r) & np.isnan(b)
             d = np.where(both_nan, 0.0, np.abs(r - b))
+            if attitude and r.size % 4 == 0 and r.size:
+                rr, bb_ = r.reshape(-1, 4), b.reshape(-1, 4)
+                d = np.minimum(np.abs(rr - bb_).max(axis=1), np.abs(rr + bb_).max(axis=1))
+            elif attitude and r.size == 3:
+                d = np.minimum(d, np.abs((r - b + np.pi) % (2 * np.pi) - np.pi))
             resid = float(np.nanmax(d)) / scale if d.size else 0.0
             if np.isnan(d).any():
                 resid = float("inf")
